@@ -48,6 +48,10 @@ def _lk(x):
         return ("\0sym", x.i)
     if isinstance(x, Touchy):
         return ("\0touchy", x.t.i)
+    if isinstance(x, Handle):
+        return ("\0handle", x.t.i)
+    if isinstance(x, LazySeq):
+        return ("\0lazy", x.t.i)
     if isinstance(x, tuple):
         return tuple(_lk(y) for y in x)
     if isinstance(x, (bool, int, float, complex)):
@@ -60,7 +64,7 @@ def _hk(x):
     levels deep - long chains - must not recurse through repr)."""
     if isinstance(x, Sym):
         return ("\0h", x.h)
-    if isinstance(x, Touchy):
+    if isinstance(x, (Touchy, Handle, LazySeq)):
         return ("\0th", x.t.h)
     if isinstance(x, tuple):
         return tuple(_hk(y) for y in x)
@@ -190,6 +194,77 @@ class Touchy:
     __call__ = __deepcopy__ = __copy__ = __reduce_ex__ = __reduce__ = __index__ = __int__ = __float__ = _no
 
 
+class Handle:
+    """A result whose IDENTITY matters (a connection, a model handle with internal state): plain Python hands the consumers the
+    very object the producer returned.  A copy remembers that it is one (`copied`), so does an object that came out of a pickle
+    (`unpickled` - legitimate for results restored from a cache file)."""
+
+    __slots__ = ("t", "copied", "unpickled")
+
+    def __init__(self, t, copied=False, unpickled=False):
+        self.t = t
+        self.copied = copied
+        self.unpickled = unpickled
+
+    def __repr__(self):
+        return "Handle(%r%s)" % (self.t, ", a copy" if self.copied else "")
+
+    def __bool__(self):
+        return bool(self.t.h & 1)
+
+    def __deepcopy__(self, memo):
+        return Handle(self.t, copied=True, unpickled=self.unpickled)
+
+    __copy__ = lambda self: Handle(self.t, copied=True, unpickled=self.unpickled)  # noqa: E731
+
+    def __reduce__(self):
+        return (_rebuild_handle, (self.t,))
+
+
+def _rebuild_handle(t):
+    return Handle(t, unpickled=True)
+
+
+class LazySeq:
+    """A sequence that MAKES its elements when they are asked for (an array whose items are fresh scalar objects, a row of a
+    table): every `seq[i]` is a new object that dies as soon as nobody holds it - its address is free for the next one."""
+
+    __slots__ = ("t", "n")
+
+    def __init__(self, t, n):
+        self.t = t
+        self.n = n
+
+    def __repr__(self):
+        return "LazySeq(%r)" % (self.t,)
+
+    def __bool__(self):
+        return bool(self.t.h & 1)
+
+    def __getitem__(self, i):
+        if not isinstance(i, int) or not 0 <= i < self.n:
+            raise IndexError("LazySeq index out of range")
+        # a fresh float (exact floats come from CPython's free list: the address of the previous temporary is the first to be
+        # handed out again); 0.0 for the falsy half of the elements
+        el = Sym("el", self.t, i)
+        return float(el.i) * (el.h & 1)
+
+    def __deepcopy__(self, memo):
+        return self
+
+    __copy__ = lambda self: self  # noqa: E731
+
+
+def copies_in(*values):
+    """The Handle objects among the values (one level into tuples / lists / dicts) that are copies."""
+    out = []
+    for v in values:
+        for x in (v.values() if isinstance(v, dict) else v if isinstance(v, (tuple, list)) else [v]):
+            if isinstance(x, Handle) and x.copied:
+                out.append(x)
+    return out
+
+
 def _bin(op):
     def f(a, b):
         if OP_FAULT[0] is not None:
@@ -219,7 +294,7 @@ def same(a, b):
         return a.keys() == b.keys() and all(same(a[k], b[k]) for k in a)
     if isinstance(a, Sym):
         return a is b
-    if isinstance(a, Touchy):
+    if isinstance(a, (Touchy, Handle, LazySeq)):
         return a.t is b.t
     return a == b
 
@@ -242,7 +317,7 @@ def mentions(x, pred):
                 return False
             seen.add(id(v))
             return walk_frozen(v.k)
-        if isinstance(v, Touchy):
+        if isinstance(v, (Touchy, Handle, LazySeq)):
             return walk(v.t)
         if isinstance(v, (list, tuple)):
             return any(walk(e) for e in v)
@@ -251,7 +326,7 @@ def mentions(x, pred):
         return bool(pred(v))
 
     def walk_frozen(k):
-        if isinstance(k, (Sym, Touchy)):
+        if isinstance(k, (Sym, Touchy, Handle, LazySeq)):
             return walk(k)
         if isinstance(k, tuple):
             if pred(k):
